@@ -124,6 +124,8 @@ def compare_lines(impl, model, mask, tol=None, value_eq=False):
             continue
         if a.startswith("PANIC:") and b.startswith("PANIC:"):
             continue      # both panic: WHICH assertion / message fired is not part of any property (a reworded assert is harmless)
+        if a == "?" or a == "?,?":
+            continue      # the harness could not observe this private value (changed Debug output and no behavioural probe): not compared
         fa, fb = fields(a), fields(b)
         if len(fa) != len(fb) or [c for c, _ in fa] != [c for c, _ in fb]:
             v = "hard" if "cat" in mask else "drift"
